@@ -269,15 +269,24 @@ TIES = [ParTie("muhash_fn", "tie/drivers/muhash_drv.cpp", "Extract_MuHash.v", "m
         IndexTie("index_sim", "tie/drivers/index_drv.cpp", "Extract_Index.v", "index_driver.ml", gen_index, predicate="driver", timeout=3000)]
 
 LEVEL_TEXT = ("Coq theorems about executable transcriptions of MuHash3072 (Z arithmetic modulo 2^3072-1103717: Multiply is the modular product "
-              "with canonical result, Divide the modular quotient, order independence as equality of states, remove cancels insert, the "
-              "multiset quotient for arbitrary interleavings, *= / /= as union / difference, representation independence) and of "
-              "CoinStatsIndex (CustomAppend / CustomRemove / RevertBlock / LookUpStats / CustomInit / CustomCommit), TxIndex, "
-              "BlockFilterIndex and BaseIndex (Init / Sync / Rewind / BlockConnected / ChainStateFlushed / Commit). Both models are run "
-              "against the real classes on generated cases; the index model is fed the blocks, undo data and notifications recorded from "
-              "a real regtest node.")
-LEVEL_NOTE = ("Trusted: Coq kernel, extraction + driver glue, the SHA256/ChaCha20 models of the crypto family. Not modelled: Num3072 limb "
-              "arithmetic and the safegcd limbs (the model computes the canonical residue in Z; boundary values are exercised through "
-              "Unserialize), thread hand-off between validation, scheduler and sync threads, the 30 s periodic commit inside Sync, filter "
-              "flat files, SipHash prefixes of txindex keys, TxoSpenderIndex (not in this package). IsBIP30Unspendable is transcribed but "
-              "cannot be exercised on regtest.")
-TECHNIQUE = "Coq proof (modular arithmetic, permutation/multiset reasoning, induction over histories) + differential correspondence on a real regtest node"
+              "with canonical result for all 3072-bit operands, Divide the modular quotient, order independence as equality of states, remove "
+              "cancels insert, the multiset quotient for arbitrary insert/remove interleavings, *= / /= as union / difference, representation "
+              "independence, serialization round trip) and of CoinStatsIndex: for ALL histories of CustomAppend / CustomRemove that follow a "
+              "block tree (induction over the history; a reorg is disconnects then connects) no step fails, the members equal a replay of the "
+              "current chain from genesis, CustomRemove undoes CustomAppend exactly, and LookUpStats of every block of the chain agrees with "
+              "ComputeUTXOStats(MUHASH) from scratch over the chain's UTXO set (digest via the MuHash multiset theorem, output count, bogo size, "
+              "amount, with the C++ wraps modelled). BaseIndex (Init/Sync/Rewind/BlockConnected/ChainStateFlushed/Commit), TxIndex and "
+              "BlockFilterIndex are executable models tied by differential execution; the corner where the property is false of the code "
+              "(index restart after an uncommitted reorg two or more blocks deep) is a _refuted theorem with vm_compute witnesses, replayed "
+              "on the real classes. Models run against the real classes on generated cases; the index model is fed the blocks, undo data and "
+              "notifications recorded from a real regtest node.")
+LEVEL_NOTE = ("Trusted: Coq kernel, extraction + driver glue, the SHA256/ChaCha20 models of the crypto family. Not proved (full statement kept as a "
+              "comment in Properties_C21.v): index_follows_active_chain for the generic BaseIndex model with restarts and sync steps, and the "
+              "txindex / blockfilter header-chain consequences; these are covered by the correspondence only (histories with restarts, reorg "
+              "while the index is down, late start). Not modelled: Num3072 limb arithmetic and the safegcd limbs (the model computes the canonical "
+              "residue in Z; boundary values are exercised through Unserialize), thread hand-off between validation, scheduler and sync "
+              "threads, interruption of Sync in the middle, the 30 s periodic commit inside Sync, filter flat files, SipHash prefixes of txindex "
+              "keys, TxoSpenderIndex. IsBIP30Unspendable is transcribed but cannot be exercised on regtest. Finding C21-revert-fallback is "
+              "reproduced with VERIF_C21_FINDING=1 (cases FINDING_CASES); it is excluded from the default generators, which always flush "
+              "before stopping an index.")
+TECHNIQUE = "Coq proof (modular arithmetic, permutation/multiset reasoning, induction over histories, vm_compute witnesses) + differential correspondence on a real regtest node"
